@@ -9,65 +9,23 @@
 /// Check for `cover`: "reachable"
 
 #[test]
-fn kani_concrete_playback_c32_p_ptp_dur_div_i64_4570231839459819133() {
+fn kani_concrete_playback_c32_p_ptp_dur_div_i64_7036751285337837071() {
     let concrete_vals: Vec<Vec<u8>> = vec![
         // 0
         vec![0, 0, 0, 0, 0, 0, 0, 0, 0, 0, 0, 0, 0, 0, 0, 0],
-        // 1
-        vec![1, 0, 0, 0, 0, 0, 0, 0],
+        // -1
+        vec![255, 255, 255, 255, 255, 255, 255, 255],
     ];
     kani::concrete_playback_run(concrete_vals, c32_p_ptp_dur_div_i64);
 }
 
 /* native run output:
-warning: use of an unstable feature
- --> <crate attribute>:1:12
-  |
-1 | #![feature(register_tool)]
-  |            ^^^^^^^^^^^^^
-  |
-  = note: requested on the command line with `--force-warn unstable-features`
+error: unexpected argument '--no-assertion-reach-checks' found
 
-warning: `statime-base` (lib) generated 1 warning
-   Compiling statime-base v2.0.0-alpha.20260715 (/repo/statime-base)
-error: cannot find macro `vec` in this scope
-   --> /verif/build/replay-inc-21921/statime_base__time_types.rs:7:39
-    |
-  7 |     let concrete_vals: Vec<Vec<u8>> = vec![
-    |                                       ^^^
-    |
-help: consider importing this macro
-   --> /verif/kani/statime_base/time_types.rs:146:5
-    |
-146 +     use std::vec;
-    |
+  tip: to pass '--no-assertion-reach-checks' as a value, use '-- --no-assertion-reach-checks'
 
-error[E0425]: cannot find type `Vec` in this scope
-   --> /verif/build/replay-inc-21921/statime_base__time_types.rs:7:24
-    |
-  7 |     let concrete_vals: Vec<Vec<u8>> = vec![
-    |                        ^^^ not found in this scope
-    |
-help: consider importing this struct
-   --> /verif/kani/statime_base/time_types.rs:146:5
-    |
-146 +     use std::vec::Vec;
-    |
+Usage: cargo-kani playback --unstable <UNSTABLE_FEATURE> [-- [TEST_ARGS]...]
 
-error[E0425]: cannot find type `Vec` in this scope
-   --> /verif/build/replay-inc-21921/statime_base__time_types.rs:7:28
-    |
-  7 |     let concrete_vals: Vec<Vec<u8>> = vec![
-    |                            ^^^ not found in this scope
-    |
-help: consider importing this struct
-   --> /verif/kani/statime_base/time_types.rs:146:5
-    |
-146 +     use std::vec::Vec;
-    |
-
-For more information about this error, try `rustc --explain E0425`.
-error: could not compile `statime-base` (lib test) due to 3 previous errors
-error: /root/.kani/kani-0.68.0/toolchain/bin/cargo exited with status exit status: 101
+For more information, try '--help'.
 
 */
